@@ -226,7 +226,7 @@ func pureExpr(p *pkgInfo, goName string, params []string, opaque func(*ast.CallE
 	return x.funcExpr(fd, recv, args, fd.Pos())
 }
 
-func emitExprsAndFacts(p *pkgInfo, out string) map[string]interface{} {
+func emitExprs(p *pkgInfo, out string) {
 	var b strings.Builder
 	b.WriteString("-- REGENERATED by /verif/extract: pure predicates of /repo translated expression by expression. Do not edit.\nnamespace Astits.Generated\n\n")
 	for _, f := range fns {
@@ -236,7 +236,9 @@ func emitExprsAndFacts(p *pkgInfo, out string) map[string]interface{} {
 	}
 	b.WriteString("end Astits.Generated\n")
 	write(filepath.Join(out, "Exprs.lean"), b.String())
+}
 
+func emitFacts(p *pkgInfo, out string) map[string]interface{} {
 	facts := map[string]interface{}{}
 	var fb strings.Builder
 	fb.WriteString("-- REGENERATED by /verif/extract: structural facts about /repo's source. Do not edit.\nnamespace Astits.Generated.Facts\n\n")
